@@ -4,12 +4,16 @@ import (
 	"bytes"
 	"context"
 	"encoding/json"
+	"errors"
 	"flag"
 	"fmt"
+	"github.com/ipld/go-ipld-prime/schema"
 	"google.golang.org/protobuf/encoding/protowire"
 	"io"
 	"math"
+	"math/bits"
 	"slices"
+	"strconv"
 	"time"
 
 	"github.com/gogo/protobuf/proto"
@@ -184,6 +188,94 @@ func storeHostile(st *Store, hc *HostileCase) (map[string]cid.Cid, error) {
 	return ids, nil
 }
 
+// hamtTable describes every stored block of a hostile case the way spec/HostileOps.tla wants it, from the stored
+// bytes through go-codec-dagpb and the gogo UnixFS message (never through the library under test).
+func hamtTable(st *Store, hc *HostileCase, ids map[string]cid.Cid) []M {
+	idx := map[string]int{}
+	for i, hb := range hc.Blocks {
+		idx[key(ids[hb.ID])] = i + 1
+	}
+	keyID := map[string]int{}
+	for i, k := range hc.Names {
+		if _, dup := keyID[k]; !dup {
+			keyID[k] = i + 1
+		}
+	}
+	var out []M
+	for _, hb := range hc.Blocks {
+		c := ids[hb.ID]
+		raw, _ := st.Get(c)
+		e := M{"kind": "raw", "typ": -1, "hashOK": false, "hasFan": false, "fanout": 0, "pow2": false, "bfOK": false, "bits": []int{}, "links": []M{}}
+		out = append(out, e)
+		if c.Prefix().Codec != cid.DagProtobuf {
+			continue
+		}
+		nb := dagpb.Type.PBNode.NewBuilder()
+		if err := dagpb.DecodeBytes(nb, raw); err != nil {
+			e["kind"] = "baddata"
+			continue
+		}
+		pbn := nb.Build().(dagpb.PBNode)
+		fan := 0
+		if !pbn.Data.Exists() {
+			e["kind"] = "nodata"
+		} else {
+			var d pb.Data
+			if err := proto.Unmarshal(pbn.Data.Must().Bytes(), &d); err != nil || d.Type == nil {
+				e["kind"] = "baddata"
+			} else {
+				e["kind"] = "unixfs"
+				e["typ"] = int(d.GetType())
+				e["hashOK"] = d.HashType != nil && *d.HashType == 0x22
+				if d.Fanout != nil {
+					v := int(int64(*d.Fanout))
+					e["hasFan"] = true
+					e["pow2"] = v > 0 && v&(v-1) == 0
+					if v < 0 || v > 1<<20 {
+						v = 1 << 20 // clamp (TLC integers are 32-bit); anything above 1024 is refused alike
+					}
+					fan = v
+					e["fanout"] = v
+				}
+				if fan > 0 && fan%8 == 0 && fan <= 1024 {
+					e["bfOK"] = len(d.Data) <= fan/8
+					bits := []int{}
+					for i := 0; i < fan; i++ {
+						j := len(d.Data) - 1 - i/8
+						if j >= 0 && d.Data[j]>>uint(i%8)&1 == 1 {
+							bits = append(bits, i)
+						}
+					}
+					e["bits"] = bits
+				}
+			}
+		}
+		pad := 1
+		if fan > 0 {
+			pad = len(fmt.Sprintf("%X", fan-1))
+		}
+		links := []M{}
+		li := pbn.Links.Iterator()
+		for !li.Done() {
+			_, l := li.Next()
+			m := M{"hasName": l.Name.Exists(), "cls": "short", "name": 0, "target": idx[key(l.Hash.Link().(cidlink.Link).Cid)]}
+			if l.Name.Exists() {
+				nm := l.Name.Must().String()
+				switch {
+				case len(nm) == pad:
+					m["cls"] = "pad"
+				case len(nm) > pad:
+					m["cls"] = "long"
+					m["name"] = keyID[nm[pad:]]
+				}
+			}
+			links = append(links, m)
+		}
+		e["links"] = links
+	}
+	return out
+}
+
 // ---- exercising a node through every operation, under recover and budgets ----
 
 type opResult struct {
@@ -191,6 +283,7 @@ type opResult struct {
 	Out   string // value | error | panic | budget | timeout
 	Steps int
 	Info  string
+	Key   int // lookups: 1-based index of the key among the case's names (0 otherwise)
 }
 
 func timed(f func() (string, int, string)) (out string, steps int, info string) {
@@ -220,6 +313,22 @@ func timed(f func() (string, int, string)) (out string, steps int, info string) 
 	}
 }
 
+// lookupDetail: found | notfound | err (beyond value-vs-error: what spec/HostileOps.tla predicts)
+func lookupDetail(nd ipld.Node, err error) string {
+	if err == nil {
+		if nd == nil {
+			return "nilnode"
+		}
+		return "found"
+	}
+	var nsf schema.ErrNoSuchField
+	var ne datamodel.ErrNotExists
+	if errors.As(err, &nsf) || errors.As(err, &ne) {
+		return "notfound"
+	}
+	return "err"
+}
+
 func errOut(err error) string {
 	if err == nil {
 		return "value"
@@ -229,6 +338,7 @@ func errOut(err error) string {
 
 func exerciseNode(n ipld.Node, names []string, budget int, only ...string) []opResult {
 	var res []opResult
+	curKey := 0
 	stuck := false
 	add := func(op string, f func() (string, int, string)) {
 		if len(only) > 0 && !slices.Contains(only, op) {
@@ -239,7 +349,7 @@ func exerciseNode(n ipld.Node, names []string, budget int, only ...string) []opR
 		}
 		defer func() { stuck = stuck || res[len(res)-1].Out == "timeout" }()
 		out, steps, info := timed(f)
-		res = append(res, opResult{op, out, steps, info})
+		res = append(res, opResult{op, out, steps, info, curKey})
 	}
 	add("kind", func() (string, int, string) { return "value", 0, n.Kind().String() })
 	add("length", func() (string, int, string) { return "value", 0, fmt.Sprint(n.Length()) })
@@ -257,9 +367,13 @@ func exerciseNode(n ipld.Node, names []string, budget int, only ...string) []opR
 		return "value", 0, ""
 	})
 	if n.Kind() == datamodel.Kind_Map {
-		for _, k := range names {
+		for ki, k := range names {
 			k := k
-			add("lookup-string", func() (string, int, string) { _, err := n.LookupByString(k); return errOut(err), 0, "" })
+			curKey = ki + 1
+			add("lookup-string", func() (string, int, string) {
+				nd, err := n.LookupByString(k)
+				return errOut(err), 0, lookupDetail(nd, err)
+			})
 			add("lookup-node", func() (string, int, string) {
 				_, err := n.LookupByNode(basicnode.NewString(k))
 				return errOut(err), 0, ""
@@ -272,12 +386,13 @@ func exerciseNode(n ipld.Node, names []string, budget int, only ...string) []opR
 				add("lookup-native", func() (string, int, string) { nd.Lookup(dpbString(k)); return "value", 0, "" })
 			}
 		}
+		curKey = 0
 		add("iter-map", func() (string, int, string) {
 			it := n.MapIterator()
 			if it == nil {
 				return "value", 0, "nil iterator"
 			}
-			steps := 0
+			steps, errs := 0, 0
 			for !it.Done() {
 				steps++
 				if steps > budget {
@@ -287,10 +402,12 @@ func exerciseNode(n ipld.Node, names []string, budget int, only ...string) []opR
 				if err == nil {
 					k.AsString()
 					v.AsLink()
+				} else {
+					errs++
 				}
 			}
 			it.Next()
-			return "value", steps, ""
+			return "value", steps, fmt.Sprintf("errs=%d", errs)
 		})
 		if it := nativeIteratorOf(n); it != nil {
 			add("iter-native", func() (string, int, string) {
@@ -353,6 +470,9 @@ func exerciseNode(n ipld.Node, names []string, budget int, only ...string) []opR
 }
 
 func runHostileCase(hc *HostileCase, tr *Tr) error {
+	var hmH []M
+	var hmDigits [][]int
+	hmRoot := 0
 	st := NewStore()
 	tr.Emit(M{"ev": "reset", "case": caseString(hc)})
 	var rootNode ipld.Node
@@ -395,6 +515,20 @@ func runHostileCase(hc *HostileCase, tr *Tr) error {
 		}
 		root := ids[hc.Root]
 		rootBytes, _ = st.Get(root)
+		// the block table for spec/HostileOps.tla (sharded-directory cases only) and every key's buckets at the root's width
+		if rb := hc.block(hc.Root); rb != nil && rb.U != nil && rb.U.Type != nil && *rb.U.Type == 5 && len(hc.Ops) == 0 {
+			hmH = hamtTable(st, hc, ids)
+			for i, hb := range hc.Blocks {
+				if hb.ID == hc.Root {
+					hmRoot = i + 1
+				}
+			}
+			if f, ok := hmH[hmRoot-1]["fanout"].(int); ok && f >= 2 && f <= 1024 && f&(f-1) == 0 {
+				for _, k := range hc.Names {
+					hmDigits = append(hmDigits, digitsOf(k, bits.TrailingZeros(uint(f))))
+				}
+			}
+		}
 		rootNode, err = loadNode(ls, root)
 		if err != nil {
 			return fmt.Errorf("hostile: root does not decode as dag-pb: %w", err)
@@ -404,6 +538,12 @@ func runHostileCase(hc *HostileCase, tr *Tr) error {
 	var node ipld.Node
 	var err error
 	lctx := ipld.LinkContext{Ctx: context.Background()}
+	if hmH == nil {
+		hmH, hmDigits = []M{}, [][]int{}
+	}
+	if hmDigits == nil {
+		hmDigits = [][]int{}
+	}
 	out, _, info := timed(func() (string, int, string) {
 		if hc.Open == "preload" {
 			node, err = ls.KnownReifiers["unixfs-preload"](lctx, rootNode, ls)
@@ -482,6 +622,7 @@ func runHostileCase(hc *HostileCase, tr *Tr) error {
 		}
 	}
 	tr.Emit(M{"ev": "reify", "adl": adlRec, "cls": hc.Class, "variant": hc.Open, "res": res, "kind": kind, "subSame": subSame, "reenc": reenc,
+		"H": hmH, "hroot": hmRoot, "hdigits": hmDigits,
 		"e": res, "info": info, "isADL": subSame || reenc || res == "file" || res == "dir" || res == "hamtdir" || res == "linkmap"})
 	if out != "value" || node == nil || res == "timeout" {
 		return nil
@@ -489,7 +630,18 @@ func runHostileCase(hc *HostileCase, tr *Tr) error {
 	nblocks := len(hc.Blocks) + 1
 	budget := 50*nblocks + 200
 	for _, r := range exerciseNode(node, hc.Names, budget, hc.Ops...) {
-		tr.Emit(M{"ev": "hop", "op": r.Op, "out": r.Out, "e": r.Out, "steps": r.Steps, "budget": budget, "info": r.Info})
+		ev := M{"ev": "hop", "op": r.Op, "out": r.Out, "e": r.Out, "steps": r.Steps, "budget": budget, "info": r.Info, "key": r.Key,
+			"errs": -1, "n": -1}
+		var x int
+		if _, err := fmt.Sscanf(r.Info, "errs=%d", &x); err == nil {
+			ev["errs"] = x
+		}
+		if r.Op == "length" {
+			if v, err := strconv.ParseInt(r.Info, 10, 64); err == nil {
+				ev["n"] = min(v, 1<<30)
+			}
+		}
+		tr.Emit(ev)
 	}
 	return nil
 }
